@@ -55,23 +55,43 @@ def telnet_consts(mod):
 
 # ---- writer pipeline -----------------------------------------------------------------------
 
-def replace_chain_of(expr, param, env):
-    """expr == param.replace(a,b).replace(c,d)...  ->  [(a,b),(c,d)]; None when expr is not such a chain on param."""
+def _chain(expr, env, mod=None, depth=0):
+    """expr == <name>.replace(a,b).replace(c,d)...  ->  (name, [(a,b),(c,d)]); a call of a one-argument module-level helper whose
+    body is ``return <such a chain on its parameter>`` is inlined.  None when expr has another shape."""
     pairs = []
-    while isinstance(expr, ast.Call) and isinstance(expr.func, ast.Attribute) and expr.func.attr == "replace" and len(expr.args) == 2 and not expr.keywords:
-        try:
-            pairs.append((const_eval(expr.args[0], env), const_eval(expr.args[1], env)))
-        except NotConst as e:
-            raise AnalysisError(f"C38: replace() with non-constant argument: {src(expr)} ({e})")
-        expr = expr.func.value
-    if isinstance(expr, ast.Name) and expr.id == param:
-        return list(reversed(pairs))
+    while True:
+        if isinstance(expr, ast.Call) and isinstance(expr.func, ast.Attribute) and expr.func.attr == "replace" and len(expr.args) == 2 and not expr.keywords:
+            try:
+                pairs.append((const_eval(expr.args[0], env), const_eval(expr.args[1], env)))
+            except NotConst as e:
+                raise AnalysisError(f"C38: replace() with non-constant argument: {src(expr)} ({e})")
+            expr = expr.func.value
+            continue
+        if isinstance(expr, ast.Call) and isinstance(expr.func, ast.Name) and mod is not None and len(expr.args) == 1 and not expr.keywords and depth < 3:
+            h = mod.find(expr.func.id)
+            if isinstance(h, ast.FunctionDef) and len(h.args.args) == 1:
+                body = [st for st in h.body if not (isinstance(st, ast.Expr) and isinstance(st.value, ast.Constant))]
+                if len(body) == 1 and isinstance(body[0], ast.Return) and body[0].value is not None:
+                    inner = _chain(body[0].value, env, mod, depth + 1)
+                    if inner is not None and inner[0] == h.args.args[0].arg:
+                        pairs += list(reversed(inner[1]))
+                        expr = expr.args[0]
+                        continue
+        break
+    if isinstance(expr, ast.Name):
+        return expr.id, list(reversed(pairs))
     return None
+
+
+def replace_chain_of(expr, param, env, mod=None):
+    r = _chain(expr, env, mod)
+    return r[1] if r is not None and r[0] == param else None
 
 
 def write_pipeline(mod, cls, env, depth=0):
     """Ordered (old,new) pairs applied by <cls>.write to its argument before it reaches self.transport.write,
-    following explicit ``Base.write(self, expr)`` delegation.  Returns (pairs, [function qualnames])."""
+    following explicit ``Base.write(self, expr)`` delegation, named temporaries and one-line helper functions.
+    Returns (pairs, [function qualnames])."""
     if depth > 4:
         raise AnalysisError("C38: write() delegation too deep")
     r = mro_lookup(mod, cls, "write")
@@ -79,39 +99,43 @@ def write_pipeline(mod, cls, env, depth=0):
         raise AnalysisError(f"C38: no write() resolvable on {cls.name}")
     owner, f = r
     param = f.args.args[1].arg
-    # local rebinding  data = data.replace(...)  is folded in order
-    pairs = []
-    sink = None
+    chains = {param: []}        # local name -> rewrite steps applied so far to the parameter's value
+
+    def resolve(expr):
+        r_ = _chain(expr, env, mod)
+        if r_ is None or r_[0] not in chains:
+            return None
+        return chains[r_[0]] + r_[1]
     for st in f.body:
         if isinstance(st, ast.Expr) and isinstance(st.value, ast.Constant):
             continue
-        if isinstance(st, ast.Assign) and len(st.targets) == 1 and isinstance(st.targets[0], ast.Name) and st.targets[0].id == param:
-            ch = replace_chain_of(st.value, param, env)
+        if isinstance(st, ast.Assign) and len(st.targets) == 1 and isinstance(st.targets[0], ast.Name):
+            ch = resolve(st.value)
             if ch is None:
-                raise AnalysisError(f"C38: {owner.name}.write rebinds its argument in an unrecognised way: {src(st)}")
-            pairs += ch
+                raise AnalysisError(f"C38: {owner.name}.write binds {st.targets[0].id} in an unrecognised way: {src(st)[:80]}")
+            chains[st.targets[0].id] = ch
             continue
         if isinstance(st, (ast.Expr, ast.Return)) and isinstance(st.value, ast.Call):
             c = st.value
             d = call_name(c)
             if d in ("self.transport.write", "self._write") and len(c.args) == 1:
-                ch = replace_chain_of(c.args[0], param, env)
+                ch = resolve(c.args[0])
                 if ch is None:
                     raise AnalysisError(f"C38: {owner.name}.write passes an unrecognised expression on: {src(c)}")
-                sink = ("sink", pairs + ch)
-                break
+                return ch, [f"{owner.name}.write"]
+            base = None
+            arg = None
             if isinstance(c.func, ast.Attribute) and c.func.attr == "write" and isinstance(c.func.value, ast.Name) and len(c.args) == 2 \
                     and src(c.args[0]) == "self":
-                base = mod.find(c.func.value.id)
-                ch = replace_chain_of(c.args[1], param, env)
-                if not isinstance(base, ast.ClassDef) or ch is None:
+                base, arg = mod.find(c.func.value.id), c.args[1]
+            if isinstance(base, ast.ClassDef):
+                ch = resolve(arg)
+                if ch is None:
                     raise AnalysisError(f"C38: {owner.name}.write delegates in an unrecognised way: {src(c)}")
                 more, names = write_pipeline(mod, base, env, depth + 1)
-                return pairs + ch + more, [f"{owner.name}.write"] + names
+                return ch + more, [f"{owner.name}.write"] + names
         raise AnalysisError(f"C38: statement of {owner.name}.write not recognised: {src(st)[:80]}")
-    if sink is None:
-        raise AnalysisError(f"C38: {owner.name}.write never reaches the transport")
-    return sink[1], [f"{owner.name}.write"]
+    raise AnalysisError(f"C38: {owner.name}.write never reaches the transport")
 
 
 def apply_pairs(pairs, data: bytes) -> bytes:
@@ -369,6 +393,7 @@ def segmentations(wire: bytes):
 
 
 def check(ctx):
+    _ok_rd = False
     mod = ctx.mod(TELNET)
     C = telnet_consts(mod)
     for k, v in (("IAC", 255), ("SB", 250), ("SE", 240), ("WILL", 251), ("WONT", 252), ("DO", 253), ("DONT", 254), ("NOP", 241), ("GA", 249)):
@@ -376,196 +401,201 @@ def check(ctx):
     tt = ctx.cls(TELNET, "TelnetTransport")
     tel = ctx.cls(TELNET, "Telnet")
 
-    # ---- writer ------------------------------------------------------------------------------
-    pairs, chain = write_pipeline(mod, tt, C)
-    for nm in chain:
-        ctx.functions.add(f"{TELNET}:{nm}")
-    qw = M + "TelnetTransport.write"
-    ctx.note(f"write pipeline of TelnetTransport via {' -> '.join(chain)}: {pairs!r}")
-    singles = [bytes((v,)) for v in range(256) if v != 13]
-    bad_iac = [b for b in [IACB, IACB * 2, b"a" + IACB, IACB + LFB, LFB + IACB] if apply_pairs(pairs, b).count(IACB) != 2 * b.count(IACB)]
-    ctx.check(not bad_iac, "writer/iac-doubled", qw + " | IAC",
-              f"application byte 0xFF is not sent as IAC IAC: write({bad_iac[:1]!r}) puts {apply_pairs(pairs, bad_iac[0]) if bad_iac else b''!r} on the wire "
-              "and the peer reads a telnet command")
-    bad_lf = [b for b in [LFB, LFB * 2, b"a" + LFB, LFB + b"a"] if apply_pairs(pairs, b).replace(IACB * 2, IACB) != b.replace(LFB, CRB + LFB)]
-    ctx.check(not bad_lf, "writer/lf-to-crlf", qw + " | LF",
-              f"LF is not sent as CR LF: write({bad_lf[:1]!r}) -> {apply_pairs(pairs, bad_lf[0]) if bad_lf else b''!r}")
-    others = [b for b in singles if b not in (IACB, LFB) and apply_pairs(pairs, b) != b]
-    ctx.check(not others, "writer/other-bytes-untouched", qw + " | other bytes",
-              f"write() rewrites bytes that need no escaping: {others[:3]!r}")
-    alpha = [IACB, LFB, b"a", NULB, C["SE"], C["WILL"]]
-    mism = [a + b for a in alpha for b in alpha if apply_pairs(pairs, a + b) != ideal(a + b)]
-    ctx.check(not mism, "writer/matches-ideal-escaper", qw + " | pairs", f"write({mism[:1]!r}) differs from IAC-doubling + LF->CRLF: "
-              f"{apply_pairs(pairs, mism[0]) if mism else b''!r}")
+    alpha = [IACB, LFB, b"a", NULB, C.get("SE", b"\xf0"), C.get("WILL", b"\xfb")]
+    with ctx.section('writer/pipeline'):
+        pairs, chain = write_pipeline(mod, tt, C)
+        for nm in chain:
+            ctx.functions.add(f"{TELNET}:{nm}")
+        qw = M + "TelnetTransport.write"
+        ctx.note(f"write pipeline of TelnetTransport via {' -> '.join(chain)}: {pairs!r}")
+        singles = [bytes((v,)) for v in range(256) if v != 13]
+        bad_iac = [b for b in [IACB, IACB * 2, b"a" + IACB, IACB + LFB, LFB + IACB] if apply_pairs(pairs, b).count(IACB) != 2 * b.count(IACB)]
+        ctx.check(not bad_iac, "writer/iac-doubled", qw + " | IAC",
+                  f"application byte 0xFF is not sent as IAC IAC: write({bad_iac[:1]!r}) puts {apply_pairs(pairs, bad_iac[0]) if bad_iac else b''!r} on the wire "
+                  "and the peer reads a telnet command")
+        bad_lf = [b for b in [LFB, LFB * 2, b"a" + LFB, LFB + b"a"] if apply_pairs(pairs, b).replace(IACB * 2, IACB) != b.replace(LFB, CRB + LFB)]
+        ctx.check(not bad_lf, "writer/lf-to-crlf", qw + " | LF",
+                  f"LF is not sent as CR LF: write({bad_lf[:1]!r}) -> {apply_pairs(pairs, bad_lf[0]) if bad_lf else b''!r}")
+        others = [b for b in singles if b not in (IACB, LFB) and apply_pairs(pairs, b) != b]
+        ctx.check(not others, "writer/other-bytes-untouched", qw + " | other bytes",
+                  f"write() rewrites bytes that need no escaping: {others[:3]!r}")
+        mism = [a + b for a in alpha for b in alpha if apply_pairs(pairs, a + b) != ideal(a + b)]
+        ctx.check(not mism, "writer/matches-ideal-escaper", qw + " | pairs", f"write({mism[:1]!r}) differs from IAC-doubling + LF->CRLF: "
+                  f"{apply_pairs(pairs, mism[0]) if mism else b''!r}")
 
-    # writeSequence sibling (K14, F38)
-    r = mro_lookup(mod, tt, "writeSequence")
-    ctx.need(r is not None and isinstance(r[1], ast.FunctionDef), "writeSequence resolvable on TelnetTransport")
-    owner, ws = r
-    ctx.functions.add(f"{TELNET}:{owner.name}.writeSequence")
-    qs = M + "TelnetTransport.writeSequence"
-    seqp = ws.args.args[1].arg
-    via_write = []
-    raw = []
-    for c in ast.walk(ws):
-        if not isinstance(c, ast.Call):
-            continue
-        d = call_name(c)
-        if d == "self.write" and len(c.args) == 1:
-            a = c.args[0]
-            joined = isinstance(a, ast.Call) and isinstance(a.func, ast.Attribute) and a.func.attr == "join" and len(a.args) == 1 \
-                and src(a.args[0]) == seqp
-            if joined:
-                try:
-                    sep = const_eval(a.func.value, C)
-                except NotConst:
-                    sep = None
-                ctx.check(sep == b"", "writeSequence/joins-without-separator", ctx.construct(qs, c),
-                          f"the elements are joined with {sep!r}: bytes that were never written reach the peer")
-                via_write.append(c)
-            elif isinstance(a, ast.Name):
-                loop = [n for n in ast.walk(ws) if isinstance(n, ast.For) and isinstance(n.target, ast.Name) and n.target.id == a.id and src(n.iter) == seqp]
-                if loop:
+    with ctx.section('writer/writeSequence'):
+        r = mro_lookup(mod, tt, "writeSequence")
+        ctx.need(r is not None and isinstance(r[1], ast.FunctionDef), "writeSequence resolvable on TelnetTransport")
+        owner, ws = r
+        ctx.functions.add(f"{TELNET}:{owner.name}.writeSequence")
+        qs = M + "TelnetTransport.writeSequence"
+        seqp = ws.args.args[1].arg
+        via_write = []
+        raw = []
+        for c in ast.walk(ws):
+            if not isinstance(c, ast.Call):
+                continue
+            d = call_name(c)
+            if d == "self.write" and len(c.args) == 1:
+                a = c.args[0]
+                joined = isinstance(a, ast.Call) and isinstance(a.func, ast.Attribute) and a.func.attr == "join" and len(a.args) == 1 \
+                    and src(a.args[0]) == seqp
+                if joined:
+                    try:
+                        sep = const_eval(a.func.value, C)
+                    except NotConst:
+                        sep = None
+                    ctx.check(sep == b"", "writeSequence/joins-without-separator", ctx.construct(qs, c),
+                              f"the elements are joined with {sep!r}: bytes that were never written reach the peer")
                     via_write.append(c)
-        elif d in ("self.transport.writeSequence", "self.transport.write", "self._write"):
-            raw.append(c)
-    ok_raw = True
-    for c in raw:
-        a = c.args[0] if c.args else None
-        per_elem = None
-        if isinstance(a, (ast.ListComp, ast.GeneratorExp)) and len(a.generators) == 1 and isinstance(a.generators[0].target, ast.Name) \
-                and src(a.generators[0].iter) == seqp and not a.generators[0].ifs:
-            per_elem = replace_chain_of(a.elt, a.generators[0].target.id, C)
-        good = per_elem is not None and all(apply_pairs(per_elem, x + y) == ideal(x + y) for x in alpha for y in alpha)
-        ok_raw = ok_raw and good
-        ctx.check(good, "writeSequence/same-escaping-as-write", ctx.construct(qs + f" (resolved: {owner.name}.writeSequence)", c),
-                  "writeSequence hands the elements to the transport without the IAC doubling / LF->CRLF that write() applies: "
-                  "writeSequence([b'a\\xffb\\n']) puts a raw IAC and a bare LF on the wire")
-    ctx.check(bool(via_write) or (bool(raw) and ok_raw), "writeSequence/same-escaping-as-write", qs,
-              f"the writeSequence TelnetTransport resolves to ({owner.name}.writeSequence) neither routes through self.write nor escapes per element")
+                elif isinstance(a, ast.Name):
+                    loop = [n for n in ast.walk(ws) if isinstance(n, ast.For) and isinstance(n.target, ast.Name) and n.target.id == a.id and src(n.iter) == seqp]
+                    if loop:
+                        via_write.append(c)
+            elif d in ("self.transport.writeSequence", "self.transport.write", "self._write"):
+                raw.append(c)
+        ok_raw = True
+        for c in raw:
+            a = c.args[0] if c.args else None
+            per_elem = None
+            if isinstance(a, (ast.ListComp, ast.GeneratorExp)) and len(a.generators) == 1 and isinstance(a.generators[0].target, ast.Name) \
+                    and src(a.generators[0].iter) == seqp and not a.generators[0].ifs:
+                per_elem = replace_chain_of(a.elt, a.generators[0].target.id, C)
+            good = per_elem is not None and all(apply_pairs(per_elem, x + y) == ideal(x + y) for x in alpha for y in alpha)
+            ok_raw = ok_raw and good
+            ctx.check(good, "writeSequence/same-escaping-as-write", ctx.construct(qs + f" (resolved: {owner.name}.writeSequence)", c),
+                      "writeSequence hands the elements to the transport without the IAC doubling / LF->CRLF that write() applies: "
+                      "writeSequence([b'a\\xffb\\n']) puts a raw IAC and a bare LF on the wire")
+        ctx.check(bool(via_write) or (bool(raw) and ok_raw), "writeSequence/same-escaping-as-write", qs,
+                  f"the writeSequence TelnetTransport resolves to ({owner.name}.writeSequence) neither routes through self.write nor escapes per element")
 
-    # requestNegotiation
-    rn = ctx.func(TELNET, "Telnet.requestNegotiation")
-    qn = M + "Telnet.requestNegotiation"
-    dp = rn.args.args[2].arg
-    ap = rn.args.args[1].arg
-    npairs = []
-    wcalls = []
-    for st in rn.body:
-        if isinstance(st, ast.Assign) and len(st.targets) == 1 and isinstance(st.targets[0], ast.Name) and st.targets[0].id == dp:
-            ch = replace_chain_of(st.value, dp, C)
-            need(ctx, ch is not None, "requestNegotiation: data = data.replace(...)")
-            npairs += ch
-        elif isinstance(st, ast.Expr) and isinstance(st.value, ast.Call) and call_name(st.value) in ("self._write", "self.transport.write"):
-            wcalls.append(st.value)
-    bad = [x for x in (IACB, IACB * 2, b"a" + IACB + C["SE"], C["SE"], b"a") if apply_pairs(npairs, x) != x.replace(IACB, IACB * 2)]
-    ctx.check(not bad, "subnegotiation/iac-doubled", qn, f"sub-negotiation payload {bad[:1]!r} is not IAC-escaped: an 0xFF 0xF0 inside it ends the "
-              "sub-negotiation early and the rest is read as application data")
-    ctx.check(len(wcalls) == 1 and src(wcalls[0].args[0]) == f"IAC + SB + {ap} + {dp} + IAC + SE", "subnegotiation/framing", qn,
-              "the sub-negotiation is not framed as IAC SB <about> <data> IAC SE")
-    w = [i for i, st in enumerate(rn.body) if isinstance(st, ast.Expr) and isinstance(st.value, ast.Call) and st.value in wcalls]
-    e = [i for i, st in enumerate(rn.body) if isinstance(st, ast.Assign) and any(isinstance(t, ast.Name) and t.id == dp for t in st.targets)]
-    ctx.check(bool(w) and bool(e) and max(e) < min(w), "subnegotiation/iac-doubled", qn + " | order", "payload is escaped after it was written")
+    with ctx.section('writer/requestNegotiation'):
+        rn = ctx.func(TELNET, "Telnet.requestNegotiation")
+        qn = M + "Telnet.requestNegotiation"
+        dp = rn.args.args[2].arg
+        ap = rn.args.args[1].arg
+        npairs = []
+        wcalls = []
+        for st in rn.body:
+            if isinstance(st, ast.Assign) and len(st.targets) == 1 and isinstance(st.targets[0], ast.Name) and st.targets[0].id == dp:
+                ch = replace_chain_of(st.value, dp, C)
+                need(ctx, ch is not None, "requestNegotiation: data = data.replace(...)")
+                npairs += ch
+            elif isinstance(st, ast.Expr) and isinstance(st.value, ast.Call) and call_name(st.value) in ("self._write", "self.transport.write"):
+                wcalls.append(st.value)
+        bad = [x for x in (IACB, IACB * 2, b"a" + IACB + C["SE"], C["SE"], b"a") if apply_pairs(npairs, x) != x.replace(IACB, IACB * 2)]
+        ctx.check(not bad, "subnegotiation/iac-doubled", qn, f"sub-negotiation payload {bad[:1]!r} is not IAC-escaped: an 0xFF 0xF0 inside it ends the "
+                  "sub-negotiation early and the rest is read as application data")
+        ctx.check(len(wcalls) == 1 and src(wcalls[0].args[0]) == f"IAC + SB + {ap} + {dp} + IAC + SE", "subnegotiation/framing", qn,
+                  "the sub-negotiation is not framed as IAC SB <about> <data> IAC SE")
+        w = [i for i, st in enumerate(rn.body) if isinstance(st, ast.Expr) and isinstance(st.value, ast.Call) and st.value in wcalls]
+        e = [i for i, st in enumerate(rn.body) if isinstance(st, ast.Assign) and any(isinstance(t, ast.Name) and t.id == dp for t in st.targets)]
+        ctx.check(bool(w) and bool(e) and max(e) < min(w), "subnegotiation/iac-doubled", qn + " | order", "payload is escaped after it was written")
 
-    # ---- reader: states (K11) -------------------------------------------------------------------
-    dr = ctx.func(TELNET, "Telnet.dataReceived")
-    qd = M + "Telnet.dataReceived"
-    handled = set()
-    for n in ast.walk(dr):
-        if isinstance(n, ast.Compare) and len(n.ops) == 1 and isinstance(n.ops[0], ast.Eq) and self_attr(n.left, "state") \
-                and isinstance(n.comparators[0], ast.Constant):
-            handled.add(n.comparators[0].value)
-    assigned = {}
-    default = class_assigns(tel).get("state")
-    ctx.need(isinstance(default, ast.Constant), "Telnet.state class default")
-    assigned[default.value] = "class default"
-    n_sw = 0
-    for cls in (tel, tt):
-        for name, f in methods(cls).items():
-            for st in statements(f):
-                if isinstance(st, ast.Assign) and any(self_attr(t, "state") for t in st.targets):
-                    n_sw += 1
-                    ctx.check(cls is tel and name == "dataReceived", "reader/who-writes-state", ctx.construct(f"{M}{cls.name}.{name}", st),
-                              "the parse state is written outside dataReceived")
-                    if isinstance(st.value, ast.Constant):
-                        assigned.setdefault(st.value.value, f"{cls.name}.{name}")
-                    else:
-                        ctx.check(False, "reader/state-has-branch", ctx.construct(f"{M}{cls.name}.{name}", st), "parse state assigned from a non-constant")
-    ctx.floor("reader/who-writes-state", n_sw, 8, "state writes")
-    for s in sorted(assigned):
-        ctx.check(s in handled, "reader/state-has-branch", f"{qd} | state {s!r}",
-                  f"state {s!r} (assigned in {assigned[s]}) has no branch in dataReceived: the next byte raises and the connection's parser is stuck")
+    with ctx.section('reader/anchors'):
+        dr = ctx.func(TELNET, "Telnet.dataReceived")
+        qd = M + "Telnet.dataReceived"
+        default = class_assigns(tel).get("state")
+        ctx.need(isinstance(default, ast.Constant), "Telnet.state class default")
+        _ok_rd = True
+    with ctx.section('reader/states'):
+        ctx.need(_ok_rd, 'anchors of reader (section skipped)')
+        handled = set()
+        for n in ast.walk(dr):
+            if isinstance(n, ast.Compare) and len(n.ops) == 1 and isinstance(n.ops[0], ast.Eq) and self_attr(n.left, "state") \
+                    and isinstance(n.comparators[0], ast.Constant):
+                handled.add(n.comparators[0].value)
+        assigned = {}
+        assigned[default.value] = "class default"
+        n_sw = 0
+        for cls in (tel, tt):
+            for name, f in methods(cls).items():
+                for st in statements(f):
+                    if isinstance(st, ast.Assign) and any(self_attr(t, "state") for t in st.targets):
+                        n_sw += 1
+                        ctx.check(cls is tel and name == "dataReceived", "reader/who-writes-state", ctx.construct(f"{M}{cls.name}.{name}", st),
+                                  "the parse state is written outside dataReceived")
+                        if isinstance(st.value, ast.Constant):
+                            assigned.setdefault(st.value.value, f"{cls.name}.{name}")
+                        else:
+                            ctx.check(False, "reader/state-has-branch", ctx.construct(f"{M}{cls.name}.{name}", st), "parse state assigned from a non-constant")
+        ctx.floor("reader/who-writes-state", n_sw, 8, "state writes")
+        for s in sorted(assigned):
+            ctx.check(s in handled, "reader/state-has-branch", f"{qd} | state {s!r}",
+                      f"state {s!r} (assigned in {assigned[s]}) has no branch in dataReceived: the next byte raises and the connection's parser is stuck")
 
-    # ---- reader: extracted automaton vs reference ---------------------------------------------------
-    rd = Reader(dr, C, default.value)
-    rd2 = Reader(dr, C, default.value)
-    n_runs = 0
-    reported = set()
+    with ctx.section('reader/automaton'):
+        ctx.need(_ok_rd, 'anchors of reader (section skipped)')
+        rd = Reader(dr, C, default.value)
+        rd2 = Reader(dr, C, default.value)
+        n_runs = 0
+        reported = set()
 
-    def report(rule, construct, fails, witness=""):
-        if (rule, construct) in reported:
-            return
-        reported.add((rule, construct))
-        ctx.violation(rule, construct, fails, witness)
+        def report(rule, construct, fails, witness=""):
+            if (rule, construct) in reported:
+                return
+            reported.add((rule, construct))
+            ctx.violation(rule, construct, fails, witness)
 
-    n_wires = 0
-    for label, wire in corpus(C):
-        if len(reported) >= 3:
-            break       # enough distinct diagnoses; the corpus is only a witness generator from here on
-        ref = reference(wire, C)
-        if ref is None:
-            raise AnalysisError("C38: corpus wire outside the reference decoder")
-        want_ev, want_state = ref
-        n_wires += 1
-        for sname, chunks in segmentations(wire):
-            n_runs += 1
-            rd.reset()
-            err = None
-            try:
-                for ch in chunks:
-                    rd.feed(ch)
-            except ModelRaise as e:
-                err = str(e)
-            got = coalesce(rd.events)
-            if err is None and got == want_ev and rd.state == want_state and not rd.unflushed:
-                continue
-            if rd.unflushed and err is None and coalesce(rd.events + [("app", rd.unflushed)]) != got:
-                report("reader/flush-at-chunk-end", qd + " | <end of chunk>",
-                       f"application bytes buffered during a chunk are dropped when the chunk ends: wire {wire!r} delivered as {chunks!r} loses {rd.unflushed!r}")
-                continue
-            cls_ = classify(got, want_ev, err, rd.state, want_state)
-            last = rd.trace[-1] if rd.trace else ("data", b"")
-            key = find_divergence(rd2, C, wire, chunks) or last
-            report("reader/round-trip", f"{qd} | state {key[0]!r} x {byte_name(key[1], C)}",
-                   f"{cls_}: wire {wire!r} ({sname}) is decoded as {got!r} / state {rd.persist.get('self__state')!r}"
-                   f"{' / raises ' + err if err else ''}; RFC 854 reference: {want_ev!r} / {want_state!r}")
-    ctx.extra["automaton_runs"] = n_runs
-    ctx.extra["wires"] = n_wires
-    if not any(r == "reader/round-trip" for r, _ in reported):
-        ctx.ok("reader/round-trip", qd, f"{n_wires} wires x segmentations = {n_runs} runs agree with the RFC 854 reference decoder")
-    if not any(r == "reader/flush-at-chunk-end" for r, _ in reported):
-        ctx.ok("reader/flush-at-chunk-end", qd + " | <end of chunk>")
-    ctx.floor("reader/round-trip", n_wires, 900, "wires")
+        n_wires = 0
+        for label, wire in corpus(C):
+            if len(reported) >= 3:
+                break       # enough distinct diagnoses; the corpus is only a witness generator from here on
+            ref = reference(wire, C)
+            if ref is None:
+                raise AnalysisError("C38: corpus wire outside the reference decoder")
+            want_ev, want_state = ref
+            n_wires += 1
+            for sname, chunks in segmentations(wire):
+                n_runs += 1
+                rd.reset()
+                err = None
+                try:
+                    for ch in chunks:
+                        rd.feed(ch)
+                except ModelRaise as e:
+                    err = str(e)
+                got = coalesce(rd.events)
+                if err is None and got == want_ev and rd.state == want_state and not rd.unflushed:
+                    continue
+                if rd.unflushed and err is None and coalesce(rd.events + [("app", rd.unflushed)]) != got:
+                    report("reader/flush-at-chunk-end", qd + " | <end of chunk>",
+                           f"application bytes buffered during a chunk are dropped when the chunk ends: wire {wire!r} delivered as {chunks!r} loses {rd.unflushed!r}")
+                    continue
+                cls_ = classify(got, want_ev, err, rd.state, want_state)
+                last = rd.trace[-1] if rd.trace else ("data", b"")
+                key = find_divergence(rd2, C, wire, chunks) or last
+                report("reader/round-trip", f"{qd} | state {key[0]!r} x {byte_name(key[1], C)}",
+                       f"{cls_}: wire {wire!r} ({sname}) is decoded as {got!r} / state {rd.persist.get('self__state')!r}"
+                       f"{' / raises ' + err if err else ''}; RFC 854 reference: {want_ev!r} / {want_state!r}")
+        ctx.extra["automaton_runs"] = n_runs
+        ctx.extra["wires"] = n_wires
+        if not any(r == "reader/round-trip" for r, _ in reported):
+            ctx.ok("reader/round-trip", qd, f"{n_wires} wires x segmentations = {n_runs} runs agree with the RFC 854 reference decoder")
+        if not any(r == "reader/flush-at-chunk-end" for r, _ in reported):
+            ctx.ok("reader/flush-at-chunk-end", qd + " | <end of chunk>")
+        ctx.floor("reader/round-trip", n_wires, 900, "wires")
 
-    # the transport hands decoded application bytes to its protocol unchanged
-    adr = ctx.func(TELNET, "TelnetTransport.applicationDataReceived")
-    dparam = adr.args.args[1].arg
-    fw = [c for c in ast.walk(adr) if isinstance(c, ast.Call) and call_name(c) == "self.protocol.dataReceived"]
-    ctx.check(len(fw) == 1 and len(fw[0].args) == 1 and isinstance(fw[0].args[0], ast.Name) and fw[0].args[0].id == dparam
-              and not any(isinstance(st, (ast.Assign, ast.AugAssign)) for st in statements(adr)),
-              "reader/delivery-unchanged", M + "TelnetTransport.applicationDataReceived",
-              "decoded application bytes are not passed to protocol.dataReceived exactly once and unmodified")
+    with ctx.section('reader/delivery-unchanged'):
+        adr = ctx.func(TELNET, "TelnetTransport.applicationDataReceived")
+        dparam = adr.args.args[1].arg
+        fw = [c for c in ast.walk(adr) if isinstance(c, ast.Call) and call_name(c) == "self.protocol.dataReceived"]
+        ctx.check(len(fw) == 1 and len(fw[0].args) == 1 and isinstance(fw[0].args[0], ast.Name) and fw[0].args[0].id == dparam
+                  and not any(isinstance(st, (ast.Assign, ast.AugAssign)) for st in statements(adr)),
+                  "reader/delivery-unchanged", M + "TelnetTransport.applicationDataReceived",
+                  "decoded application bytes are not passed to protocol.dataReceived exactly once and unmodified")
 
-    # final else of the state chain raises
-    top = [st for st in dr.body if isinstance(st, ast.For)]
-    ctx.need(top, "dataReceived: for b in iterbytes(data)")
-    chain_if = [st for st in top[0].body if isinstance(st, ast.If)]
-    ctx.need(chain_if, "dataReceived: if self.state == ... chain")
-    node = chain_if[0]
-    while len(node.orelse) == 1 and isinstance(node.orelse[0], ast.If):
-        node = node.orelse[0]
-    ctx.check(any(isinstance(s, ast.Raise) for s in node.orelse), "reader/unknown-state-raises", qd + " | <else>",
-              "an unknown parse state is silently ignored (bytes are dropped) instead of raising")
+    with ctx.section('reader/unknown-state-raises'):
+        ctx.need(_ok_rd, 'anchors of reader (section skipped)')
+        top = [st for st in dr.body if isinstance(st, ast.For)]
+        ctx.need(top, "dataReceived: for b in iterbytes(data)")
+        chain_if = [st for st in top[0].body if isinstance(st, ast.If)]
+        ctx.need(chain_if, "dataReceived: if self.state == ... chain")
+        node = chain_if[0]
+        while len(node.orelse) == 1 and isinstance(node.orelse[0], ast.If):
+            node = node.orelse[0]
+        ctx.check(any(isinstance(s, ast.Raise) for s in node.orelse), "reader/unknown-state-raises", qd + " | <else>",
+                  "an unknown parse state is silently ignored (bytes are dropped) instead of raising")
 
 
 def reference_step(st, b, C):
@@ -628,6 +658,9 @@ def find_divergence(rd, C, wire, chunks):
 
 T = TELNET
 MUTANTS = [
+    Mutant("helper-escapes-wrong-byte", T, "        ProtocolTransportMixin.write(self, data.replace(b\"\\xff\", b\"\\xff\\xff\"))",
+           "        escaped = _doubleIAC(data)\n        ProtocolTransportMixin.write(self, escaped)",
+           more=[(T, "class ProtocolTransportMixin:\n", "def _doubleIAC(data):\n    return data.replace(DONT, DONT * 2)\n\n\nclass ProtocolTransportMixin:\n")], expect_rule="writer/iac-doubled"),
     Mutant("revert-F38-writeSequence", T, "    def writeSequence(self, seq):\n        self.write(b\"\".join(seq))\n\n\nclass TelnetBootstrapProtocol", "\n\nclass TelnetBootstrapProtocol",
            expect_rule="writeSequence/same-escaping-as-write"),
     Mutant("drop-iac-doubling", T, "        ProtocolTransportMixin.write(self, data.replace(b\"\\xff\", b\"\\xff\\xff\"))", "        ProtocolTransportMixin.write(self, data)",
@@ -653,6 +686,9 @@ MUTANTS = [
            "            elif self.state == \"command\":\n                command = self.command\n", expect_rule="reader/round-trip"),
 ]
 SILENT = [
+    Silent("write-named-temporary-and-helper", T, "        ProtocolTransportMixin.write(self, data.replace(b\"\\xff\", b\"\\xff\\xff\"))",
+           "        escaped = _doubleIAC(data)\n        ProtocolTransportMixin.write(self, escaped)",
+           more=[(T, "class ProtocolTransportMixin:\n", "def _doubleIAC(data):\n    return data.replace(IAC, IAC * 2)\n\n\nclass ProtocolTransportMixin:\n")]),
     Silent("writeSequence-per-element-loop", T, "    def writeSequence(self, seq):\n        self.write(b\"\".join(seq))\n\n\nclass TelnetBootstrapProtocol",
            "    def writeSequence(self, seq):\n        for piece in seq:\n            self.write(piece)\n\n\nclass TelnetBootstrapProtocol"),
     Silent("write-escapes-in-two-statements", T, "        ProtocolTransportMixin.write(self, data.replace(b\"\\xff\", b\"\\xff\\xff\"))",
